@@ -96,6 +96,22 @@ template <size_t K> static bool run(const std::string& op, const A& a, O& o) {
     // ---- rucmp.h
     else if (op == "cmp") { o.i(cmp(u(0), u(1))); }
     else if (op == "cmpl") { o.i(cmp(u(0), a.l(1))); }
+    else if (op == "cmpsl") { o.i(cmp(u(0), (int64_t)a.l(1))); }
+    else if (op == "relul") { U x = u(0); uint64_t w = a.l(1);
+        o.b(x < w); o.b(x <= w); o.b(x > w); o.b(x >= w); o.b(x == w); o.b(x != w);
+        o.b(w < x); o.b(w <= x); o.b(w > x); o.b(w >= x); o.b(w == x); o.b(w != x); }
+    else if (op == "relsl") { U x = u(0); int64_t w = (int64_t)a.l(1);
+        o.b(x < w); o.b(x <= w); o.b(x > w); o.b(x >= w); o.b(x == w); o.b(x != w);
+        o.b(w < x); o.b(w <= x); o.b(w > x); o.b(w >= x); o.b(w == x); o.b(w != x); }
+    else if (op == "scmp") { S x = s(0), y = s(1); o.i(cmp(x, y)); o.b(x < y); o.b(x <= y); o.b(x > y); o.b(x >= y); o.b(x == y); o.b(x != y); }
+    else if (op == "scmpsl") { o.i(cmp(s(0), (int64_t)a.l(1))); }
+    else if (op == "scmpul") { o.i(cmp(s(0), (uint64_t)a.l(1))); }
+    else if (op == "srelsl") { S x = s(0); int64_t w = (int64_t)a.l(1);
+        o.b(x < w); o.b(x <= w); o.b(x > w); o.b(x >= w); o.b(x == w); o.b(x != w);
+        o.b(w < x); o.b(w <= x); o.b(w > x); o.b(w >= x); o.b(w == x); o.b(w != x); }
+    else if (op == "srelul") { S x = s(0); uint64_t w = a.l(1);
+        o.b(x < w); o.b(x <= w); o.b(x > w); o.b(x >= w); o.b(x == w); o.b(x != w);
+        o.b(w < x); o.b(w <= x); o.b(w > x); o.b(w >= x); o.b(w == x); o.b(w != x); }
     else if (op == "rel") { U x = u(0), y = u(1); o.b(x < y); o.b(x <= y); o.b(x > y); o.b(x >= y); o.b(x == y); o.b(x != y); }
     // ---- rumul.h / ruaddmul.h
     else if (op == "lmul") { lmul(r, r2, u(0), u(1)); ou(r); ou(r2); }
@@ -105,6 +121,10 @@ template <size_t K> static bool run(const std::string& op, const A& a, O& o) {
     else if (op == "mul") { mul(r, u(0), u(1)); ou(r); }
     else if (op == "mulip") { r = u(0); mul(r, u(1)); ou(r); }
     else if (op == "mulop") { ou(u(0) * u(1)); }
+    else if (op == "mulal1") { r = u(0); mul(r, r, u(1)); ou(r); }               // output aliases the first operand
+    else if (op == "mulal2") { r = u(1); mul(r, u(0), r); ou(r); }               // output aliases the second operand
+    else if (op == "mulstar") { r = u(0); r *= u(1); ou(r); }
+    else if (op == "mulself") { r = u(0); mul(r, r, r); ou(r); r2 = u(0); r2 *= r2; ou(r2); }
     else if (op == "lmull") { limb ret = 0xA5A5; lmul(ret, r, u(0), a.l(1)); o.l(ret); ou(r); }
     else if (op == "mull") { mul(r, u(0), a.l(1)); ou(r); }
     else if (op == "mullip") { r = u(0); mul(r, a.l(1)); ou(r); }
@@ -274,6 +294,7 @@ static void emit_case(const std::string& op, unsigned K, std::initializer_list<Z
     for (const Z& z : args) a.tok.push_back(hx(z));
     process(a);
 }
+static Z H0(unsigned nb) { return pow2(nb - 1); }
 static Z zl(limb l) { Z t; mpz_import(t.get_mpz_t(), 1, -1, 8, 0, 0, &l); return t; }
 
 static void generate(bool thorough, uint64_t seed) {
@@ -321,13 +342,69 @@ static void generate(bool thorough, uint64_t seed) {
                               if (std::string(f) == "saddmul") emit_case(f, K, {g.sval(K), p, q}); else emit_case(f, K, {p, q}); }
             if (i % 6 == 1) emit_case("slsq", K, {g.sval(K)});
         }
+        // comparisons with 64-bit scalars of both signs around 2^31, 2^32, 2^63 (ruint and rint, scalar on either side)
+        {
+            static const long long wg[] = {0, 1, -1, 2, -2, 5, -5, 0x7fffffffLL, 0x80000000LL, 0x80000001LL, -0x7fffffffLL, -0x80000000LL, -0x80000001LL,
+                                           0xffffffffLL, 0x100000000LL, 0x100000001LL, -0xffffffffLL, -0x100000000LL, -0x100000001LL,
+                                           0x7ffffffffffffffeLL, 0x7fffffffffffffffLL, (long long)0x8000000000000000ULL, (long long)0x8000000000000001ULL,
+                                           -0x7fffffffffffffffLL, (long long)0xffffffffffffffffULL, 0x123456789abLL, -0x123456789abLL};
+            unsigned nw = sizeof wg / sizeof wg[0];
+            for (unsigned i = 0; i < nw * (thorough ? 12 : 4); i++) {
+                long long w = (i / nw) % 4 == 3 ? (long long)(g.rng.next() >> g.rng.below(64)) * ((i & 1) ? -1 : 1) : wg[i % nw];
+                Z zs; { Z t((long)(w < 0 ? -(w + 1) : w)); zs = w < 0 ? Z(-t - 1) : t; }      // w as a signed value
+                Z zu = zl((limb)w);                                                             // the same bits as an unsigned value
+                // the recursive integer: equal to the scalar, next to it, its image modulo 2^64 / 2^bits, or unrelated
+                Z cand[] = {zu, zu + 1, zu - 1, (zs + M) % M, (zs + M + 1) % M, (zs + M - 1) % M, zu + pow2(64), g.val(K), Z(0), M - 1};
+                Z av = cand[(i / nw + i) % 10]; av = ((av % M) + M) % M;
+                emit_case("cmpl", K, {av, zu}); emit_case("relul", K, {av, zu});
+                emit_case("cmpsl", K, {av, zs}); emit_case("relsl", K, {av, zs});
+                Z scand[] = {zs, zs + 1, zs - 1, -zs, zu, zu + 1, g.sval(K), -H0(nb), H0(nb) - 1, Z(-1)};
+                Z sv = scand[(i / nw + 2 * i) % 10]; if (sv >= H0(nb) || sv < -H0(nb)) sv = zs;
+                emit_case("scmpsl", K, {sv, zs}); emit_case("srelsl", K, {sv, zs});
+                emit_case("scmpul", K, {sv, zu}); emit_case("srelul", K, {sv, zu});
+                emit_case("scmp", K, {sv, g.sval(K)}); emit_case("scmp", K, {sv, (i & 1) ? sv : Z(-sv - 1)});
+            }
+        }
+        // borrow / carry arriving at an all-ones 128-bit block that is not the top one (K >= 8)
+        if (K >= 8) {
+            unsigned nblk = nb / 128;
+            for (unsigned i = 0; i < (thorough ? 40u : 6u) * nblk; i++) {
+                unsigned j = i % (nblk - 1);                        // block index 0 .. nblk-2
+                Z blk = (pow2(128) - 1) << (128 * j);
+                Z lowmask = pow2(128 * j) - 1;
+                Z c = ((g.val(K) | blk) % M), b = g.val(K);
+                // make a borrow arrive at block j: below it the minuend is smaller than the subtrahend (or use the incoming flag when j = 0)
+                Z cy = 0;
+                if (j == 0) cy = 1; else { b = (b - (b & lowmask)); c = (c - (c & lowmask)) + 1 + (g.val(K) & lowmask) % lowmask; }
+                if (i % 3 == 1) b = (b - (b & blk)) | (c & blk) ;   // block of b equal to the block of c (all ones): result block all ones again
+                if (i % 3 == 2) b = b - (b & blk);                  // block of b zero
+                b = ((b % M) + M) % M; c = ((c % M) + M) % M;
+                const char* sw[] = {"subwc", "subwcnc", "subwcip", "subwcipnc"};
+                emit_case(sw[i % 4], K, {b, c, cy});
+                emit_case(sw[(i / 4) % 4], K, {b, c, Z(1)});
+                const char* sb[] = {"sub", "subnc", "subip", "subop"};
+                if (j > 0) emit_case(sb[i % 4], K, {b, c});
+                // the mirror for additions: all-ones block in c, carry arriving from below
+                Z b2 = (j == 0) ? b : Z((b - (b & lowmask)) + lowmask);          // low part all ones: any non-zero low part of c carries
+                const char* aw[] = {"addwc", "addwcnc", "addwcip", "addwcipnc"};
+                emit_case(aw[i % 4], K, {b2 % M, c, Z(1)});
+                const char* ad[] = {"add", "addnc", "addip", "addop"};
+                if (j > 0) emit_case(ad[i % 4], K, {b2 % M, c});
+            }
+        }
         for (unsigned i = 0; i < nmul; i++) {
             Z b = g.val(K), c = g.val(K);
             if (i % 9 == 0) { b = M - 1; c = M - 1; }
             if (i % 9 == 1) { b = (pow2(nb / 2) - 1) * pow2(nb / 2) + (long)g.rng.below(2); c = M - 1 - (long)g.rng.below(2); }  // High+Low overflows in Karatsuba
-            const char* mm[] = {"lmul", "lmuln", "lmulk", "lmul2", "mul", "mulip", "mulop"};
-            emit_case(mm[i % 7], K, {b, c});
-            emit_case(mm[(i / 7) % 7], K, {g.val(K), g.val(K)});
+            const char* mm[] = {"lmul", "lmuln", "lmulk", "lmul2", "mul", "mulip", "mulop", "mulal1", "mulal2", "mulstar"};
+            emit_case(mm[i % 10], K, {b, c});
+            emit_case(mm[(i / 10) % 10], K, {g.val(K), g.val(K)});
+            if (i % 4 == 0) emit_case("mulself", K, {b});
+            if (K >= 10) {                              // in-place forms where the Karatsuba levels run (source threshold: K-1 >= 10)
+                const char* ip[] = {"mulip", "mulal1", "mulal2", "mulstar", "mulop"};
+                emit_case(ip[i % 5], K, {g.structured(K), g.structured(K)});
+                emit_case(ip[(i + 2) % 5], K, {b, c});
+            }
             const char* ml[] = {"lmull", "mull", "mullip"};
             emit_case(ml[i % 3], K, {g.val(K), zl(g.word())});
             emit_case((i & 1) ? "lsq" : "sq", K, {(i % 5 == 0) ? Z(M - 1 - (long)g.rng.below(2)) : g.val(K)});
@@ -401,6 +478,14 @@ static void generate(bool thorough, uint64_t seed) {
             emit_case("expmod", K, {(i % 2) ? g.val(K) % m : g.val(K), e, m});
             emit_case("expmodl", K, {g.val(K) % m, zl(g.word()), m});
         }
+        // scalar exponents that are exactly a power of two (the bit loop `for (j = 1; j != 0; j <<= 1)`), and 0
+        for (unsigned j = 0; j < 64; j++) {
+            if (K >= 9 && j % (K >= 11 ? 16 : 4) != 3 && j != 63 && j != 0) continue;
+            Z m = g.nonzero(K); if (m < 2) m = M - 1;
+            emit_case("expmodl", K, {g.val(K) % m, pow2(j), m});
+            if (K <= 8) emit_case("expmodl", K, {Z(2 + g.rng.below(5)), pow2(j), (j & 1) ? Z(M - 1 - 2 * g.rng.below(9)) : g.nonzero(K)});
+        }
+        emit_case("expmodl", K, {g.val(K), Z(0), g.nonzero(K)});
         emit_case("expmodl", K, {Z(0), Z(0), Z(1)});          // 0^0 mod 1 = 0
         emit_case("expmodl", K, {g.val(K), Z(0), g.nonzero(K)});
     }
